@@ -19,6 +19,9 @@ MANIFEST = dict(
          "(for the code with the entry-point reset and abandoned-scan fixes; the 4.5.2 code is refuted by kernel-checked witnesses F6/F7). "
          "The model is tied to the code by random histories run on the real scanner and on the compiled model (exact trace equality), "
          "each call also replayed on a fresh real scanner; leaks by LSan after destroying the scanner at the end of every (prefix) history. "
+         "Histories also contain yr_scanner_set_flags with every flag combination and yr_scanner_scan_proc (own child process, or a pid that "
+         "cannot be attached); settings_survive proves that only set_* calls change the settings, and the fresh scanner of the comparison "
+         "gets the settings last given. Rule sets use every place-dependent string operator and regexp strings. "
          "Sampled only: the correspondence model<->C (histories, rule sets, buffers are generated, not exhaustive).",
     design_ref="DESIGN.md §4 D10, §5 C10",
     note=core.TB + "String matching / condition evaluation / PE-ELF parsing are parameters of the model; in the tie they are instantiated "
